@@ -188,6 +188,17 @@ CLAIMED["C13"] = dict(
     note="Trusted: pandapower's ConstControl / OutputWriter / DFData as the time-series infrastructure. Multi-energy time series are covered "
          "by C20's check.",
     ref="DESIGN.md 4/C13")
+CLAIMED["C20"] = dict(
+    technique="model-based and differential property-based testing: generated multinets and coupling controllers vs conversion formula and stand-alone member calculations",
+    text="Exploration: multinets of pandapower's example_simple with 1-2 generated gas nets (six fluids with a heating value) get 1-4 "
+         "generated P2G / G2P (power-led, gas-led) / G2G controllers with scalar or vector indices, efficiencies, scalings, orders and levels, "
+         "optionally a G2P->G2G chain, an infeasible member net, or a 2-4 step time series. Written values must equal scaled input * efficiency "
+         "at the heating value parsed from the fluid file (the chain asserts the eta1*eta2 product), every member net must equal a stand-alone "
+         "pipeflow / runpp on a copy with the written values (gas bit-exact), and a failing member net must not let the coupled run return "
+         "normally.",
+    note="Trusted: pandapower's runpp, control loop and example network. Heat nets as multinet members are not generated (no coupling "
+         "controller acts on them).",
+    ref="DESIGN.md 4/C20")
 NOT_YET = {}
 
 def main():
